@@ -55,6 +55,7 @@ class Effects:
                     self.cached_names.add(n)
         self.unresolved = 0
         self.calls_seen = 0
+        self.callers: Dict[str, Set[str]] = {}
         self._solve()
 
     # ------------------------------------------------------------------ fixpoint
@@ -201,6 +202,10 @@ class _FuncAnalysis:
                             out.add(t)
             return out or {F}
         if isinstance(e, ast.Subscript):
+            # indexing with an index ARRAY (boolean mask / integer list) copies; indexing with slices and integers gives a view
+            els = e.slice.elts if isinstance(e.slice, ast.Tuple) else [e.slice]
+            if any(isinstance(i, ast.Name) and self._array_kind(i.id) for i in els) or any(isinstance(i, (ast.Compare, ast.List)) or (isinstance(i, ast.UnaryOp) and isinstance(i.op, ast.Invert)) for i in els):
+                return {F}
             sl = e.slice
             if isinstance(sl, ast.Constant) and isinstance(sl.value, int) and isinstance(e.value, (ast.Name, ast.Attribute)) and not isinstance(e.value, ast.Subscript):
                 # element [k] of a tuple-like (extent[0], shape[1], pixel_scales[0]): a scalar, unless it is a row of a table of arrays (conservative: keep alias for names that are stored into later)
@@ -231,6 +236,43 @@ class _FuncAnalysis:
         if isinstance(e, ast.Call):
             return self.own_call(e)
         return {F}
+
+    _ARRAY_MAKERS = {"append", "array", "arange", "zeros", "ones", "where", "delete", "nonzero", "argsort", "unique", "full", "empty", "concatenate", "asarray", "flatnonzero", "invert", "logical_not", "logical_and", "logical_or"}
+
+    def _array_kind(self, name: str) -> bool:
+        """the local `name` holds an index array (so X[name] is a copy): every binding of it in this function that can be classified is an array-making call, a comparison, or a fancy-indexed array;
+        a binding from int() / argmax / len / range makes it an integer"""
+        cache = self.__dict__.setdefault("_kinds", {})
+        if name in cache:
+            return cache[name]
+        cache[name] = False   # recursion guard
+        arr, scal = 0, 0
+        for n in self.f.body_nodes():
+            vals = []
+            if isinstance(n, ast.Assign):
+                for t in n.targets:
+                    if isinstance(t, ast.Name) and t.id == name:
+                        vals.append(n.value)
+            elif isinstance(n, ast.For) and isinstance(n.target, ast.Name) and n.target.id == name:
+                scal += 1
+            for v in vals:
+                if isinstance(v, ast.Call):
+                    fn = v.func
+                    nm = fn.attr if isinstance(fn, ast.Attribute) else (fn.id if isinstance(fn, ast.Name) else "")
+                    if nm in self._ARRAY_MAKERS or nm in ("astype", "copy", "flatten", "ravel"):
+                        arr += 1
+                    elif nm in ("int", "argmax", "argmin", "len", "float", "sum", "max", "min"):
+                        scal += 1
+                elif isinstance(v, ast.Compare) or (isinstance(v, ast.UnaryOp) and isinstance(v.op, ast.Invert)):
+                    arr += 1
+                elif isinstance(v, ast.Subscript):
+                    els = v.slice.elts if isinstance(v.slice, ast.Tuple) else [v.slice]
+                    if any(isinstance(i, ast.Name) and self._array_kind(i.id) for i in els) or isinstance(v.value, ast.Call):
+                        arr += 1
+                elif isinstance(v, ast.Constant):
+                    scal += 1
+        cache[name] = arr > 0 and scal == 0
+        return cache[name]
 
     def own_call(self, c: ast.Call) -> Set[tuple]:
         fn = c.func
@@ -300,15 +342,22 @@ class _FuncAnalysis:
         return out or {F}
 
     # ---- writes
-    def write(self, tags: Set[tuple], node: ast.AST, how: str, direct: bool = True, via: Optional[str] = None):
+    def write(self, tags: Set[tuple], node: ast.AST, how: str, direct: Optional[bool] = True, via: Optional[str] = None):
+        """direct=None (a write that happens inside a callee): the site is charged to this function exactly when the storage written is not one of its own parameters
+        (a parameter is passed further up: the obligation moves to whoever called this function)"""
         for t in tags:
             if t == F or t[0] in ("SELF", "SELFPL"):
                 continue
             if t not in self.mut:
                 self.mut[t] = Site(self.f, node, how, via)
-            if direct and t not in self.direct:
+            if direct is None:
+                here = t[0] != "P"
+            else:
+                here = direct
+            direct_t = here
+            if direct_t and t not in self.direct:
                 self.direct[t] = Site(self.f, node, how, via)
-            if direct and (t, id(node)) not in self._seen_sites:
+            if direct_t and (t, id(node)) not in self._seen_sites:
                 self._seen_sites.add((t, id(node)))
                 self.direct_all.append((t, Site(self.f, node, how, via)))
 
@@ -462,8 +511,8 @@ class _FuncAnalysis:
         for k in c.keywords:
             if k.arg == "out" and isinstance(fn, ast.Attribute):
                 self.write(self.own(k.value), c, "ufunc out=")
-            if k.arg in ("overwrite_a", "overwrite_b") and isinstance(k.value, ast.Constant) and k.value.value is True and c.args:
-                self.write(self.own(c.args[0]), c, "overwrite_a=True")
+            if k.arg in ("overwrite_a", "overwrite_b") and isinstance(k.value, ast.Constant) and k.value.value is True and len(c.args) > (0 if k.arg == "overwrite_a" else 1):
+                self.write(self.own(c.args[0 if k.arg == "overwrite_a" else 1]), c, f"{k.arg}=True")
         if isinstance(fn, ast.Attribute) and isinstance(fn.value, ast.Name) and fn.value.id in ("np", "numpy") and fn.value.id not in self.env and name in INPLACE_NP and c.args:
             self.write(self.own(c.args[0]), c, f"np.{name} (in-place numpy function)")
         tg = self.p.resolve_call(c, self.f)
@@ -474,6 +523,8 @@ class _FuncAnalysis:
             if isinstance(fn, ast.Attribute) and isinstance(fn.value, ast.Attribute) and norm_text(fn.value) in ("np.random",) and name == "shuffle" and c.args:
                 self.write(self.own(c.args[0]), c, "np.random.shuffle")
             return
+        for t in tg:
+            self.E.callers.setdefault(t.key, set()).add(self.f.key)
         for t in tg:
             if t.name == "__init__" and self.f.name == "__init__" and isinstance(fn, ast.Attribute) and isinstance(fn.value, ast.Call) and isinstance(fn.value.func, ast.Name) and fn.value.func.id == "super":
                 bind0, _ = Project.bind(c, t)
@@ -497,7 +548,7 @@ class _FuncAnalysis:
                 recv = {("SELF",)}
             for tag, site in m.items():
                 how = f"call of {t.qualname} which writes in place ({site.how} at {site.f.module.relpath}:{getattr(site.node, 'lineno', 0)})"
-                direct = t.key in ALLOWED_MUTATORS
+                direct = None
                 if tag[0] == "P":
                     arg = bind.get(tag[1])
                     if arg is None and tag[1] == t.vararg:
